@@ -438,8 +438,8 @@ def cid(name):
     return s
 
 class Emitter:
-    def __init__(s, mod, ub=True, globals_check=True, stubs=None, uf_float=False):
-        s.uf_float = uf_float
+    def __init__(s, mod, ub=True, globals_check=True, stubs=None, uf_float=False, uf_int=False):
+        s.uf_float = uf_float; s.uf_int = uf_int
         s.mod = mod; s.L = Layout(mod); s.ub = ub
         s.globals_check = globals_check
         s.stubs = stubs or {}
@@ -953,6 +953,13 @@ class Emitter:
                 if da and db and da['op'] == 'ptrtoint' and db['op'] == 'ptrtoint':
                     o.append('  %s = VERIF_PTRDIFF(%s, %s);' % (d, s.val(da['a']), s.val(db['a'])))
                     return
+            if s.uf_int == 'all' and op in ('add', 'sub', 'shl', 'lshr', 'ashr') and bits in (32, 64) and I['a'][0] != 'int' and I['b'][0] != 'int':
+                if op in ('shl', 'lshr', 'ashr'): s.ubassert(o, '%s < %d' % (b, bits), 'shift amount >= width')
+                o.append('  %s = VERIF_IUF(%s%d, %s, %s);' % (d, op, bits, a, b)); return
+            if s.uf_int and op in ('mul', 'udiv', 'urem', 'sdiv', 'srem') and bits in (32, 64) and I['a'][0] != 'int' and I['b'][0] != 'int':
+                if op in ('udiv', 'urem', 'sdiv', 'srem'):
+                    s.ubassert(o, '%s != 0' % b, 'division by zero')
+                o.append('  %s = VERIF_I%s%d(%s, %s);' % (d, op.upper(), bits, a, b)); return
             if op in ('add', 'sub', 'mul'):
                 cop = {'add': '+', 'sub': '-', 'mul': '*'}[op]
                 if 'nsw' in fl and s.ub and bits in (8, 16, 32, 64):
@@ -1144,6 +1151,8 @@ class Emitter:
                 o.append('  VERIF_OBSERVE(%s);' % s.val(args[0])); return
             av = ', '.join(s.val(a) for a in args)
             call = '%s(%s)' % (cid(name), av)
+            if s.uf_float and nm in ('sqrtf', 'sqrt', 'log2', 'log2f', 'logf', 'log', 'expf', 'exp', 'exp2f', 'exp2'):
+                call = 'VERIF_FUF1(%s, %s)' % (nm, av)
         else:
             # indirect
             fp = s.lname(name)
@@ -1188,9 +1197,14 @@ class Emitter:
         m = re.match(r'llvm\.(fabs|floor|ceil|sqrt|trunc|rint|nearbyint|round|log2|exp2|log|exp)\.(f32|f64)', nm)
         if m:
             fn = m.group(1) + ('f' if m.group(2) == 'f32' else '')
+            if s.uf_float and m.group(1) in ('sqrt', 'log2', 'exp2', 'log', 'exp'):
+                o.append('  %s = VERIF_FUF1(%s, %s);' % (d, fn, v(0))); return
             o.append('  %s = %s(%s);' % (d, fn, v(0))); return
         m = re.match(r'llvm\.fmuladd\.(f32|f64)', nm)
         if m:
+            if s.uf_float:
+                w = '32' if m.group(1) == 'f32' else '64'
+                o.append('  %s = VERIF_FFADD%s(VERIF_FFMUL%s(%s, %s), %s);' % (d, w, w, v(0), v(1), v(2))); return
             o.append('  %s = %s * %s + %s;' % (d, v(0), v(1), v(2))); return
         m = re.match(r'llvm\.(maxnum|minnum)\.(f32|f64)', nm)
         if m:
@@ -1294,13 +1308,17 @@ class Emitter:
                 _, name, ct, cn, g = x
                 init = s.cinit(g['init'], g['type'])
                 ginit.append('%s %s = %s;' % (ct, cn, init))
-        out = [PRELUDE]
+        out = [PRELUDE, '/*BODY-BEGIN*/']
         out.extend(s.aggdefs)
         out.extend(protos)
         out.extend(gtxt)
         out.extend(ginit)
         out.extend(stubtxt)
         out.extend(fbodies)
+        out.append('/*BODY-END*/')
+        s.emitted_names = sorted(set([cid(n) for n in keep_funcs] + [cid(f.name) for f in nobody] +
+                                     ['g_' + cid(x[1]) for x in gl if x[0] == 'def'] +
+                                     [v.split()[1] for v in s.aggtypes.values()]))
         out.append('void verif_entry(void) { %s(); }' % cid(entry))
         out.append(NATIVE_MAIN)
         return '\n'.join(out) + '\n'
@@ -1401,11 +1419,58 @@ uint8_t  nondet_bool(void) { return nondet_u8() & 1; }
 #define VERIF_PTRCMP(a, op, b) ((uint64_t)(a) op (uint64_t)(b))
 #endif
 /* float arithmetic as uninterpreted functions (option --uf-float): sound abstraction for equality / 2-safety obligations */
+/* symbolic x symbolic integer multiply / divide as uninterpreted functions (option --uf-int): for equivalence obligations */
+#ifdef __CPROVER__
+uint32_t __CPROVER_uninterpreted_mul32(uint32_t, uint32_t); uint64_t __CPROVER_uninterpreted_mul64(uint64_t, uint64_t);
+uint32_t __CPROVER_uninterpreted_udiv32(uint32_t, uint32_t); uint64_t __CPROVER_uninterpreted_udiv64(uint64_t, uint64_t);
+uint32_t __CPROVER_uninterpreted_urem32(uint32_t, uint32_t); uint64_t __CPROVER_uninterpreted_urem64(uint64_t, uint64_t);
+uint32_t __CPROVER_uninterpreted_sdiv32(uint32_t, uint32_t); uint64_t __CPROVER_uninterpreted_sdiv64(uint64_t, uint64_t);
+uint32_t __CPROVER_uninterpreted_srem32(uint32_t, uint32_t); uint64_t __CPROVER_uninterpreted_srem64(uint64_t, uint64_t);
+uint32_t __CPROVER_uninterpreted_add32(uint32_t, uint32_t); uint64_t __CPROVER_uninterpreted_add64(uint64_t, uint64_t);
+uint32_t __CPROVER_uninterpreted_sub32(uint32_t, uint32_t); uint64_t __CPROVER_uninterpreted_sub64(uint64_t, uint64_t);
+uint32_t __CPROVER_uninterpreted_shl32(uint32_t, uint32_t); uint64_t __CPROVER_uninterpreted_shl64(uint64_t, uint64_t);
+uint32_t __CPROVER_uninterpreted_lshr32(uint32_t, uint32_t); uint64_t __CPROVER_uninterpreted_lshr64(uint64_t, uint64_t);
+uint32_t __CPROVER_uninterpreted_ashr32(uint32_t, uint32_t); uint64_t __CPROVER_uninterpreted_ashr64(uint64_t, uint64_t);
+#define VERIF_IUF(f, a, b) __CPROVER_uninterpreted_##f(a, b)
+#define VERIF_IMUL32(a, b) __CPROVER_uninterpreted_mul32(a, b)
+#define VERIF_IMUL64(a, b) __CPROVER_uninterpreted_mul64(a, b)
+#define VERIF_IUDIV32(a, b) __CPROVER_uninterpreted_udiv32(a, b)
+#define VERIF_IUDIV64(a, b) __CPROVER_uninterpreted_udiv64(a, b)
+#define VERIF_IUREM32(a, b) __CPROVER_uninterpreted_urem32(a, b)
+#define VERIF_IUREM64(a, b) __CPROVER_uninterpreted_urem64(a, b)
+#define VERIF_ISDIV32(a, b) __CPROVER_uninterpreted_sdiv32(a, b)
+#define VERIF_ISDIV64(a, b) __CPROVER_uninterpreted_sdiv64(a, b)
+#define VERIF_ISREM32(a, b) __CPROVER_uninterpreted_srem32(a, b)
+#define VERIF_ISREM64(a, b) __CPROVER_uninterpreted_srem64(a, b)
+#else
+#define VERIF_IUF(f, a, b) verif_iuf_##f(a, b)
+static inline uint32_t verif_iuf_add32(uint32_t a, uint32_t b) { return a + b; } static inline uint64_t verif_iuf_add64(uint64_t a, uint64_t b) { return a + b; }
+static inline uint32_t verif_iuf_sub32(uint32_t a, uint32_t b) { return a - b; } static inline uint64_t verif_iuf_sub64(uint64_t a, uint64_t b) { return a - b; }
+static inline uint32_t verif_iuf_shl32(uint32_t a, uint32_t b) { return a << b; } static inline uint64_t verif_iuf_shl64(uint64_t a, uint64_t b) { return a << b; }
+static inline uint32_t verif_iuf_lshr32(uint32_t a, uint32_t b) { return a >> b; } static inline uint64_t verif_iuf_lshr64(uint64_t a, uint64_t b) { return a >> b; }
+static inline uint32_t verif_iuf_ashr32(uint32_t a, uint32_t b) { return (uint32_t)((int32_t)a >> b); } static inline uint64_t verif_iuf_ashr64(uint64_t a, uint64_t b) { return (uint64_t)((int64_t)a >> b); }
+#define VERIF_IMUL32(a, b) ((uint32_t)((a) * (b)))
+#define VERIF_IMUL64(a, b) ((uint64_t)((a) * (b)))
+#define VERIF_IUDIV32(a, b) ((uint32_t)((a) / (b)))
+#define VERIF_IUDIV64(a, b) ((uint64_t)((a) / (b)))
+#define VERIF_IUREM32(a, b) ((uint32_t)((a) % (b)))
+#define VERIF_IUREM64(a, b) ((uint64_t)((a) % (b)))
+#define VERIF_ISDIV32(a, b) ((uint32_t)((int32_t)(a) / (int32_t)(b)))
+#define VERIF_ISDIV64(a, b) ((uint64_t)((int64_t)(a) / (int64_t)(b)))
+#define VERIF_ISREM32(a, b) ((uint32_t)((int32_t)(a) % (int32_t)(b)))
+#define VERIF_ISREM64(a, b) ((uint64_t)((int64_t)(a) % (int64_t)(b)))
+#endif
 #ifdef __CPROVER__
 float __CPROVER_uninterpreted_fadd32(float, float); float __CPROVER_uninterpreted_fsub32(float, float);
 float __CPROVER_uninterpreted_fmul32(float, float); float __CPROVER_uninterpreted_fdiv32(float, float);
 double __CPROVER_uninterpreted_fadd64(double, double); double __CPROVER_uninterpreted_fsub64(double, double);
 double __CPROVER_uninterpreted_fmul64(double, double); double __CPROVER_uninterpreted_fdiv64(double, double);
+float __CPROVER_uninterpreted_sqrtf(float); double __CPROVER_uninterpreted_sqrt(double);
+float __CPROVER_uninterpreted_log2f(float); double __CPROVER_uninterpreted_log2(double);
+float __CPROVER_uninterpreted_exp2f(float); double __CPROVER_uninterpreted_exp2(double);
+float __CPROVER_uninterpreted_logf(float); double __CPROVER_uninterpreted_log(double);
+float __CPROVER_uninterpreted_expf(float); double __CPROVER_uninterpreted_exp(double);
+#define VERIF_FUF1(f, a) __CPROVER_uninterpreted_##f(a)
 #define VERIF_FFADD32(a, b) __CPROVER_uninterpreted_fadd32(a, b)
 #define VERIF_FFSUB32(a, b) __CPROVER_uninterpreted_fsub32(a, b)
 #define VERIF_FFMUL32(a, b) __CPROVER_uninterpreted_fmul32(a, b)
@@ -1415,6 +1480,7 @@ double __CPROVER_uninterpreted_fmul64(double, double); double __CPROVER_uninterp
 #define VERIF_FFMUL64(a, b) __CPROVER_uninterpreted_fmul64(a, b)
 #define VERIF_FFDIV64(a, b) __CPROVER_uninterpreted_fdiv64(a, b)
 #else
+#define VERIF_FUF1(f, a) f(a)
 #define VERIF_FFADD32(a, b) ((a) + (b))
 #define VERIF_FFSUB32(a, b) ((a) - (b))
 #define VERIF_FFMUL32(a, b) ((a) * (b))
@@ -1538,6 +1604,7 @@ def main():
     ap.add_argument('--entry', required=True, help='harness entry function (extern "C")')
     ap.add_argument('--no-ub', action='store_true')
     ap.add_argument('--uf-float', action='store_true', help='float +,-,*,/ as uninterpreted functions')
+    ap.add_argument('--uf-int', nargs='?', const='muldiv', default=None, help="symbolic x symbolic integer mul/div/rem ('muldiv') or also add/sub/shifts ('all') as uninterpreted functions")
     ap.add_argument('--stub', action='append', default=[], help='name=havoc|unreachable|noop (mangled name)')
     ap.add_argument('--info', default=None, help='write json with emitted functions etc.')
     ap.add_argument('--list-reachable', action='store_true', help='only print the defined functions reachable from the entry')
@@ -1560,7 +1627,7 @@ def main():
             saved[k] = mod.funcs['@' + k].blocks
             mod.funcs['@' + k].blocks = []
     kf, kg, kd = reachable(mod, [entry])
-    em = Emitter(mod, ub=not a.no_ub, stubs=stubs, uf_float=a.uf_float)
+    em = Emitter(mod, ub=not a.no_ub, stubs=stubs, uf_float=a.uf_float, uf_int=a.uf_int)
     em.referenced_decls = kd
     txt = em.emit_module(kf, kg, a.entry)
     open(a.o, 'w').write(txt)
@@ -1570,6 +1637,7 @@ def main():
                    'stubs': stubs,
                    'no_body': em.nobody_names,
                    'mutable_global_refs': sorted([f[1:], g[1:]] for f, g in em.mut_hits),
+                   'emitted_names': em.emitted_names,
                    'globals': sorted(n[1:] for n in kg)}, open(a.info, 'w'), indent=1)
 
 if __name__ == '__main__':
